@@ -94,3 +94,36 @@ Proof.
   apply (included_kept literal_matches _ _ key Hi).
   destruct H as [H|H]; eexists; (split; [|exact H]); vm_compute; tauto.
 Qed.
+
+(** monotonicity of the composed CLI filter (wave-5 extension): more include patterns remove no more,
+    more exclude patterns remove no less, and a key no exclude pattern matches is always kept *)
+
+Lemma cli_filter_more_incl : forall (matches : str -> str -> bool) de di xe xi xi' key, de <> [] -> di <> [] ->
+  cli_filter matches de di xe (xi ++ xi') key = true -> cli_filter matches de di xe xi key = true.
+Proof.
+  intros m de di xe xi xi' key Hde Hdi H.
+  apply (cli_filter_sem m de di xe (xi ++ xi') key Hde Hdi) in H. destruct H as [He Hn].
+  apply (cli_filter_sem m de di xe xi key Hde Hdi). split; [exact He|].
+  intros [i [[Hi|Hi] Hm]]; apply Hn; exists i; (split; [|exact Hm]).
+  - left; exact Hi.
+  - right; apply in_or_app; left; exact Hi.
+Qed.
+
+Lemma cli_filter_more_excl : forall (matches : str -> str -> bool) de di xe xe' xi key, de <> [] -> di <> [] ->
+  cli_filter matches de di xe xi key = true -> cli_filter matches de di (xe ++ xe') xi key = true.
+Proof.
+  intros m de di xe xe' xi key Hde Hdi H.
+  apply (cli_filter_sem m de di xe xi key Hde Hdi) in H. destruct H as [[e [He Hm]] Hn].
+  apply (cli_filter_sem m de di (xe ++ xe') xi key Hde Hdi). split; [|exact Hn].
+  exists e; split; [|exact Hm]. destruct He as [He|He]; [left; exact He|right; apply in_or_app; left; exact He].
+Qed.
+
+(** a key matched by no exclude pattern at all is never removed, whatever the include lists say *)
+Lemma cli_filter_unmatched_kept : forall (matches : str -> str -> bool) de di xe xi key, de <> [] -> di <> [] ->
+  (forall e, In e de \/ In e xe -> matches e key = false) -> cli_filter matches de di xe xi key = false.
+Proof.
+  intros m de di xe xi key Hde Hdi Hno.
+  destruct (cli_filter m de di xe xi key) eqn:E; [|reflexivity].
+  apply (cli_filter_sem m de di xe xi key Hde Hdi) in E. destruct E as [[e [He Hm]] _].
+  rewrite (Hno e He) in Hm. discriminate.
+Qed.
